@@ -412,6 +412,16 @@ def gen_sched(g):
             cands = [p for p in srcs if p in disk and docs.get(p) is None]
             if cands:
                 p = rng.choice(cands)
+                if rng.random() < 0.35 and len(disk[p]) > 40 and disk[p].isascii():
+                    # the closed file was rewritten by another tool: fewer lines, the very same
+                    # number of bytes (and, under a coarse or frozen file-system clock, the same
+                    # time stamp)
+                    old_lines = disk[p].split("\n")
+                    keep = old_lines[: max(1, len(old_lines) // 2)]
+                    room = len(disk[p]) - len("\n".join(keep)) - 1
+                    if room >= 2:
+                        disk[p] = "\n".join(keep) + "\n" + "! " + "x" * (room - 2)
+                        ops.append(gen.env_write(p, disk[p]))
                 open_doc(p)
                 burst(p, 16)
             continue
@@ -489,7 +499,8 @@ def gen_sched(g):
     ops += [gen.req(rid(), "shutdown"), gen.note("exit")]
     return {"argv": argv, "tree": tree, "ops": ops, "sync_kind": 2, "strict_edits": False, "faults": faults,
             "pipeline": False, "oracles": ["c09"], "workload": wk,
-            "chunks": rng.choice([None, None, [4096], [64]])}
+            "chunks": rng.choice([None, None, [4096], [64]]),
+            "fsclock": rng.choice(["fine", "coarse", "frozen"])}
 
 
 def nontrivial(o):
